@@ -10,4 +10,5 @@ CONSTANTS
   MaxAtt = 1
   MaxCrash = 0
   MaxFail = 0
+  EarlyChunks = FALSE
   Survive = FALSE
